@@ -166,6 +166,37 @@ fn main() {
     nested("HashMap<u16,Vec<u8>>", &hm, &HashMap::new());
     let hs: HashSet<i32> = [i32::MIN, -1, 0, 1 << 20].into_iter().collect();
     nested("HashSet<i32>", &hs, &HashSet::new());
+    // optional features: smallvec, bitvec (every storage type and bit order; lengths across element boundaries; non-zero head offsets)
+    {
+        use bitvec::prelude::*;
+        use smallvec::SmallVec;
+        let sv: SmallVec<[u32; 4]> = SmallVec::from_vec(vec![1, 1 << 21, u32::MAX]);
+        nested("SmallVec<[u32;4]> (inline)", &sv, &SmallVec::<[u32; 4]>::new());
+        let sv2: SmallVec<[u32; 2]> = SmallVec::from_vec((0..40).map(|i| i * 1000).collect());
+        nested("SmallVec<[u32;2]> (spilled)", &sv2, &SmallVec::<[u32; 2]>::from_vec(vec![7]));
+        macro_rules! bv {
+            ($t:ty, $o:ty, $name:expr) => {{
+                for len in [0usize, 1, 7, 8, 9, 15, 16, 17, 20, 31, 32, 33, 63, 64, 65, 70, 129] {
+                    let mut b: BitVec<$t, $o> = BitVec::new();
+                    for i in 0..len { b.push((i * 7 + i / 3) % 3 != 0); }
+                    rt(&format!("BitVec<{}> len {}", $name, len), &b);
+                    if len > 5 {
+                        // a vector whose live bits do not start at bit 0 of its first element
+                        let shifted: BitVec<$t, $o> = b[3..].to_bitvec();
+                        rt(&format!("BitVec<{}> from bits[3..] len {}", $name, len - 3), &shifted);
+                        let mut drained = b.clone();
+                        drained.drain(..2);
+                        rt(&format!("BitVec<{}> after drain(..2) len {}", $name, len - 2), &drained);
+                    }
+                }
+            }};
+        }
+        bv!(u8, Lsb0, "u8,Lsb0"); bv!(u8, Msb0, "u8,Msb0");
+        bv!(u16, Lsb0, "u16,Lsb0"); bv!(u16, Msb0, "u16,Msb0");
+        bv!(u32, Lsb0, "u32,Lsb0"); bv!(u32, Msb0, "u32,Msb0");
+        bv!(u64, Lsb0, "u64,Lsb0"); bv!(u64, Msb0, "u64,Msb0");
+        bv!(usize, Lsb0, "usize,Lsb0"); bv!(usize, Msb0, "usize,Msb0");
+    }
     // derive fixtures (skipped fields hold their Default so that equality is meaningful)
     {
         use derive_fix::*;
